@@ -9,7 +9,7 @@
 (***************************************************************************)
 EXTENDS Vocab
 
-NilKinds == {"nil"} \cup {"*" \o g : g \in GoTypes}
+NilKinds == {"nil"} \cup {"*" \o g : g \in GoTypes} \cup {"*IRI", "*IRIs", "*ItemCollection"}    \* the pointer forms of the non-struct items too
 Positions == {"top", "member", "property"}
 
 \* helpers that take the item itself
@@ -30,7 +30,7 @@ TopHelpers == {"IsNil", "NotEmpty", "ItemsEqual-nil", "ItemsEqual-self", "ItemsE
                \* the Equals METHOD of a valid value, given the nil item as its argument
                "Object.Equals", "Actor.Equals", "Activity.Equals", "IntransitiveActivity.Equals", "Link.Equals", "Collection.Equals",
                "OrderedCollection.Equals", "CollectionPage.Equals", "OrderedCollectionPage.Equals", "ItemCollection.Equals", "IRI.ItemsMatch",
-               "Collection.Append", "JSONWriteIRIProp"}    \* (an Append of nothing must not add a member: the harness reports "grew")
+               "Collection.Append", "JSONWriteIRIProp", "CollectionPageNew", "OrderedCollectionPageNew"}    \* (an Append of nothing must not add a member: the harness reports "grew")
 EqualsMethods == {"Object.Equals", "Actor.Equals", "Activity.Equals", "IntransitiveActivity.Equals", "Link.Equals", "Collection.Equals",
                   "OrderedCollection.Equals", "CollectionPage.Equals", "OrderedCollectionPage.Equals", "ItemCollection.Equals"}
 \* helpers applied to an otherwise valid value holding the nil item (as list member / as property)
